@@ -31,6 +31,11 @@ func (m *Mutex) Lock() {
 	}
 	m.held = true
 	raceAcquire(unsafe.Pointer(m))
+	if postAcquireYield {
+		// the tree under test observes lock states without blocking (TryLock): "inside the critical
+		// section" is a state of its own, so another thread may be scheduled here.
+		Yield()
+	}
 }
 
 // TryLock tries to lock m.
@@ -46,6 +51,7 @@ func (m *Mutex) TryLock() bool {
 	}
 	m.held = true
 	raceAcquire(unsafe.Pointer(m))
+	Yield() // a lock taken by TryLock is held at a scheduling point too
 	return true
 }
 
@@ -90,6 +96,44 @@ func (m *RWMutex) Lock() {
 	m.writer = true
 	raceAcquire(unsafe.Pointer(m))
 	raceAcquire(unsafe.Pointer(&m.rtok))
+	if postAcquireYield {
+		Yield()
+	}
+}
+
+// TryLock tries to lock m for writing.
+//
+//go:norace
+func (m *RWMutex) TryLock() bool {
+	if !active {
+		return m.real.TryLock()
+	}
+	Yield()
+	if m.writer || m.readers > 0 {
+		return false
+	}
+	m.writer = true
+	raceAcquire(unsafe.Pointer(m))
+	raceAcquire(unsafe.Pointer(&m.rtok))
+	Yield()
+	return true
+}
+
+// TryRLock tries to lock m for reading.
+//
+//go:norace
+func (m *RWMutex) TryRLock() bool {
+	if !active {
+		return m.real.TryRLock()
+	}
+	Yield()
+	if m.writer {
+		return false
+	}
+	m.readers++
+	raceAcquire(unsafe.Pointer(m))
+	Yield()
+	return true
 }
 
 //go:norace
@@ -116,6 +160,9 @@ func (m *RWMutex) RLock() {
 	}
 	m.readers++
 	raceAcquire(unsafe.Pointer(m))
+	if postAcquireYield {
+		Yield()
+	}
 }
 
 //go:norace
